@@ -32,10 +32,18 @@ META = {
                   '(loadParameters() in any state restores every usable stored value unless the write method refuses it), reload_from_this_run '
                   '(start-up, any history, then loadParameters(): every persistent parameter ends with a value of this run - a value an earlier '
                   'run stored never overrides what start-up decided from the configuration), reload_after_startup_keeps_values, load_total / '
-                  'unusable_entry_removes_only_itself.  The model is tied to frappy/persistent.py and the callback loop of '
+                  'unusable_entry_removes_only_itself.  Where the file lives (Small/PersistPlace: name derived from equipment id and module name, '
+                  'cut at every "/", directories on the way to it): save_same_wherever (for every set of existing directories __save_params is '
+                  'the save of the flat model, fault for fault - so all theorems above hold wherever the file lives), '
+                  'missing_dir_never_prevents_saving / _startup (every equipment id, every set of directories, even none), '
+                  'saved_after_directory_removed (any state, the tree below any directory removed behind the module), model_saved_wherever (the '
+                  'model satisfies the Spec clause SavedWherever), without_directory_nothing_is_saved (the counterpart).  The model is tied to frappy/persistent.py and the callback loop of '
                   'Module.announceUpdate by a correspondence run on real modules over all datatypes: the code writes through Python\'s own '
                   'buffered text file onto a raw file whose open / write / close, and os.rename / os.remove, are logged, can fail, and are each '
-                  'followed by a snapshot of the directory taken by an independent reader; the Lean monitors judge every snapshot, retry trial '
+                  'followed by a snapshot of the directory taken by an independent reader; equipment ids with path separators, directories '
+                  'missing at the first start and trees removed between the actions of a history are part of the generated cases, the path of '
+                  'the file is taken from the Lean model, and the Lean monitor SavedWherever judges the whole tree below the log directory after '
+                  'every undisturbed call; the Lean monitors judge every snapshot, retry trial '
                   '(explicit and automatic saves), restart, and every loadParameters() of the histories and on damaged files.',
     'level_note': 'Durability is modelled at the granularity of the operations that reach the operating system (open, each write of the '
                   'buffered writer on the descriptor, close, rename, remove), for the default buffering and for small buffers; rename is atomic; '
@@ -62,6 +70,12 @@ META = {
         'announceUpdate is modelled for updates that are not omitted (the harness clock advances 10 s per reading): valid values, and '
         'updates without valid value (read error, refused value), which save nothing',
         'an OSError while *reading* the file and a failing pathlib mkdir are outside the statement and not injected',
+        'place of the file: equipment ids starting with "/" (pathlib drops <logdir>/persistent) or with a component ".." are not modelled '
+        'and not generated (the code under test would write outside the scratch directory); a regular file standing where a directory is '
+        'needed is not modelled; PWorld.step runs the flat module machine - justified by save_same_wherever for the saves, and checked '
+        'by the correspondence (operations, files, existing directories after every step)',
+        'a module is not required to notice that its file was removed from outside: a save of data Python-== to what the file held '
+        'when it was taken away may do nothing (excused in the silent-save round-trip judge, counted)',
     ],
     'modelled_not_verified': ['json', 'frappy.datatypes import_value/export_value/validate', 'Module.__init__/_handle_writes',
                               'os.rename atomicity', 'io.TextIOWrapper / io.BufferedWriter (chunking, behaviour of close() after a failed write)'],
@@ -1928,7 +1942,10 @@ def run(ctx):
                 'two saves that touched the disk and a fork of fault trials.  corruptions: truncation at every byte (files <= 400 B), bit flips, type changes, unknown/missing keys, bad '
                 'entries, each met by a restart and by loadParameters() of a running module (quick tier: 30 % of the truncations and bit flips '
                 'for the latter); non-trivial = readable dictionary that '
-                'changes some restored value.  40 % of the histories start from the file of an earlier run, 60 % of those written under '
+                'changes some restored value.  place: 40 % of the histories with an equipment id containing path separators (1-3 subdirectories), '
+                '50 % with only some (or none) of the directories existing at the first start, 25 % with 1-2 removals of a directory tree '
+                '(log directory, persistent, a subdirectory) between the actions, mostly followed by a change and its save.  datatype '
+                'catalogue: every container kind over every leaf kind, containers nested over scaled / blob, one history each.  40 % of the histories start from the file of an earlier run, 60 % of those written under '
                 'an edited configuration, half of them with loadParameters() right after start-up; every loadParameters() is judged '
                 '(restored values, provenance of the values)')
     big = ctx.tier == 'thorough' or ctx.escalated
